@@ -19,22 +19,27 @@ LEVEL = "proof"
 PROPS = "PdshVerif.Props.C18"
 MANIFEST = dict(
     engine="opt",
-    technique="Lean 4 proof (model of opt_default/opt_env/getopt/opt_args/opt_verify and of the C numeric conversions; "
-              "precedence, independence, refusal of bad values, fanout >= 1) + differential correspondence of the real "
-              "pdsh/pdcp binaries against the compiled model + specification oracle on the real -q dump / exit status",
+    technique="Lean 4 proof (model of main as a whole: opt_default/opt_env/getopt/opt_args_early/opt_args incl. the assembly "
+              "of the remote command, opt_verify, main's decision what to start; the C numeric conversions; precedence, "
+              "independence, refusal of bad values, fanout >= 1 composed with the fan-out LTS of C03) + differential "
+              "correspondence of the real pdsh/pdcp/rpdcp binaries against the compiled model + specification oracle on the "
+              "real -q dump / exit status / real runs",
     text="Theorems in lean/PdshVerif/Props/C18.lean about the model Opt/Settings.lean: every setting equals the conversion "
-         "of command line <|> environment <|> default (all option orders, any other options present), bad values are "
-         "refused and an accepted fanout is >= 1 in the repaired variant, valid settings are accepted and take exactly the "
-         "value written (accepts_valid, takes_value_given), values given per target in -w words are checked too, with "
-         "kernel-checked counterexamples for the unchanged code (-f 0, FANOUT=, -f -1, -f 4294967297, -t -4294967295, "
-         "over-long user@, -M after a module option with argument). The model is executed against the real "
-         "binaries on generated environment x argument combinations; the real observations are judged by Opt/Spec.lean.",
+         "of command line <|> environment <|> default (all option orders and spellings, any other options present, every "
+         "personality), for every row of the option / environment table that harness/consts/optable.c DERIVES FROM THE "
+         "BEHAVIOUR of the opt.c under test (getopt and getenv interposed, experiments in forked children); bad values are "
+         "refused with status 1 before anything is started and an accepted fanout is >= 1 (no deadlock of the dispatcher: "
+         "C03.progress imported); valid settings are accepted and take exactly the value written; the remote command is the "
+         "operands joined by blanks, the prompt loop is entered exactly when there is none; pdsh has no -e, pdcp/rpdcp no "
+         "-S/-k; kernel-checked counterexamples for the unchanged code. The model is executed against the real binaries on "
+         "generated environment x argument combinations (table-driven deterministic classes + random); the real observations "
+         "are judged by Opt/Spec.lean; refusals are classified by the kind of bad input, never by message wording.",
     design_ref="DESIGN.md section 5 C18, section 6 D4 D5",
     note="Lean 4.33 kernel; axioms propext/Classical.choice/Quot.sound at most (audited per theorem every run); hand-written "
          "model tied to opt.c/main.c by differential execution of binaries built from /repo's working tree plus constants "
-         "regenerated from /repo (defaults, rcmd ranking; getopt strings compared textually); glibc strtoul/strtol/atoi/"
-         "getopt modelled not verified; WCOLL, DSHPATH, module-provided options, -z/-Z outside the model; generators, "
-         "gcc trusted")
+         "regenerated from /repo (defaults, rcmd ranking, option strings and option/variable table by behavioural probe); "
+         "glibc strtoul/strtol/atoi/getopt modelled not verified; WCOLL, DSHPATH, -w - (stdin), what module option handlers "
+         "do outside the model; generators, gcc trusted")
 
 NUMS = ["", "0", "1", "2", "7", "32", "100", "2147483647", "2147483648", "2147483649", "4294967295", "4294967296",
         "4294967297", "4294967306", "9223372036854775807", "9223372036854775808", "18446744073709551615",
@@ -43,7 +48,10 @@ NUMS = ["", "0", "1", "2", "7", "32", "100", "2147483647", "2147483648", "214748
         "-9223372036854775808", "-9223372036854775809", "-18446744073709551615", "-18446744073709551616",
         "+5", "+0", "+", "-", "+-5", "--5", "- 5", " 5", "  12", "\t8", "\n3", "5 ", "5\t", " ", "\t",
         "0x10", "0X1F", "1f", "x", "abc", "5x", "5.0", "1e3", "1,000", "007", "00", "0000000000000000000000012",
-        "10", "9", "64", "1024", "65536"]
+        "10", "9", "64", "1024", "65536",
+        # octal / hex / binary spellings (a base-0 conversion reads them differently or accepts them), near-limits
+        "010", "017", "08", "09", "0x", "0x7", "0b11", "0o7", "2147483646", "-2147483647", "1 2", "3\n", "+2147483647",
+        "+2147483648", "4294967298", "18446744073709551614"]
 VALID_NUMS = ["1", "2", "3", "7", "10", "32", "64", "100", "1024"]
 FLAGS_DSH = ["N", "b", "d", "S", "k"]
 FLAGS_PCP = ["N", "b", "d", "r", "p"]
@@ -56,22 +64,6 @@ RCMDS = ["rsh", "exec", "nosuch", "", "RSH", "exec ", "ssh", "rsh,exec"]
 
 def hx(s):
     return s.encode("latin1").hex() or "-"
-
-
-def optstrings_from_source():
-    src = open(os.path.join(REPO, "src", "pdsh", "opt.c")).read()
-    out = {}
-    for name in ("GEN_ARGS", "PCP_ARGS"):
-        m = re.search(r'#define\s+%s\s+"([^"]*)"' % name, src)
-        out[name] = m.group(1) if m else None
-    m = re.findall(r'#define\s+DSH_ARGS\s+"([^"]*)"', src)
-    out["DSH_ARGS"] = m[-1] if m else None       # the #else branch (no HAVE_MAGIC_RSHELL_CLEANUP)
-    return out
-
-
-def model_optstrings():
-    src = open(os.path.join(VERIF, "lean", "PdshVerif", "Opt", "Settings.lean")).read()
-    return {n: re.search(r'def %s : Str := "([^"]*)"' % n, src).group(1) for n in ("GEN_ARGS", "DSH_ARGS", "PCP_ARGS")}
 
 
 # --------------------------------------------------------------------------- cases
@@ -117,7 +109,7 @@ class Case:
         """text given for a setting on the command line (last occurrence) / in the environment"""
         if src == "c":
             vals = [v for l, v in self.opts if l == letter]
-            return vals[-1] if vals else None
+            return (vals[0] if getattr(self, "pick_first", False) else vals[-1]) if vals else None
         return self.env.get(ENVNAME.get(letter, ""), None)
 
 
@@ -292,22 +284,30 @@ class Real:
         for pers, b in self.bin.items():
             p = subprocess.run([b, "-L"], env={}, stdout=subprocess.PIPE, stderr=subprocess.PIPE)
             self.avail[pers] = re.findall(r"^Module: rcmd/(\S+)", p.stdout.decode(), re.M)
+        gen = open(os.path.join(VERIF, "lean", "PdshVerif", "Gen", "Dsh.lean")).read()
+        self.dflt_ctmo = int(re.search(r"def CONNECT_TIMEOUT : Nat := (\d+)", gen).group(1))
+        self.dflt_rcmd = {}
 
-    def run(self, pers, argv, env, timeout=20, user=None):
+    def run(self, pers, argv, env, timeout=20, user=None, stdin_data=None):
         cmd = [self.bin[pers]] + argv
         if user is not None:
             cmd = ["setpriv", "--reuid", str(user), "--regid", str(user), "--clear-groups"] + cmd
-        try:
-            p = subprocess.run(cmd, env=env, stdin=subprocess.DEVNULL, stdout=subprocess.PIPE, stderr=subprocess.PIPE,
-                               timeout=timeout)
-            return p.returncode, p.stdout, p.stderr
-        except subprocess.TimeoutExpired:
-            return None, b"", b"TIMEOUT"
+        for attempt in (0, 1):      # a time-out alone is tried once more before it is reported (loaded machine)
+            try:
+                kw = {"stdin": subprocess.DEVNULL} if stdin_data is None else {"input": stdin_data}
+                p = subprocess.run(cmd, env=env, stdout=subprocess.PIPE, stderr=subprocess.PIPE, timeout=timeout, **kw)
+                return p.returncode, p.stdout, p.stderr
+            except subprocess.TimeoutExpired:
+                continue
+        return None, b"", b"TIMEOUT"
 
 
 DUMP = {"path": rb"^Remote program path\t(.*)$", "ruser": rb"^Remote username\t\t(.*)$", "rcmd": rb"^Rcmd type\t\t(.*)$",
         "ctmo": rb"^Connect timeout \(secs\)\t(-?\d+)$", "utmo": rb"^Command timeout \(secs\)\t(-?\d+)$",
         "fanout": rb"^Fanout\t\t\t(-?\d+)$"}
+
+
+DUMP_OPTIONAL = {"cmd": rb"^Command:\t\t(.*)$", "infiles": rb"^Infile\(s\)\t\t(.*)$", "outfile": rb"^Outfile\t\t\t(.*)$"}
 
 
 def parse_dump(out):
@@ -317,7 +317,31 @@ def parse_dump(out):
         if not m:
             return None
         d[k] = m.group(1).decode("latin1")
+    for k, rx in DUMP_OPTIONAL.items():
+        m = re.search(rx, out, re.M)
+        if m:
+            d[k] = m.group(1).decode("latin1")
     return d
+
+
+def unhex(h):
+    return "" if h == "-" else bytes.fromhex(h).decode("latin1")
+
+
+def assembly_differs(pers, d, mm):
+    """the remote command (DSH) / the source files and the destination (PCP) of the listing vs the model's"""
+    kv = dict(x.split("=", 1) for x in mm if "=" in x)
+    if "cmd" not in kv:
+        return None
+    if pers == "dsh":
+        want = d.get("cmd")
+        got = "none" if kv["cmd"] == "~" else unhex(kv["cmd"])
+        return None if want == got else "command: listing `%s` model `%s`" % (want, got)
+    ins = ", ".join(unhex(x) for x in kv["in"].split(",")) if kv["in"] else None
+    outf = "none" if kv["out"] == "~" else unhex(kv["out"])
+    if d.get("infiles") != ins or d.get("outfile") != outf:
+        return "files: listing %r -> %r model %r -> %r" % (d.get("infiles"), d.get("outfile"), ins, outf)
+    return None
 
 
 def base_fields(real, pers):
@@ -406,33 +430,183 @@ def load_replay(ctx):
         c._drop_last = True
     if k.get("wspec"):
         c.wspec = k["wspec"]
+    if k.get("use"):
+        c.use = k["use"]
     c.group = "replay"
     ctx.log("replay of %s: %s env %s argv %s (signature %s)" % (os.path.basename(ctx.replay), c.pers, c.env, c.argv(),
                                                              rp.get("signature")))
     return c, k.get("kind", "q")
 
 
-DIAGNOSTICS = [("invalid-fanout", rb"Invalid fanout"), ("invalid-environment-variable", rb"Invalid environment variable"),
-               ("invalid-connect-timeout", rb"Invalid connect timeout"), ("invalid-command-timeout", rb"Invalid command timeout"),
-               ("username-too-long", rb"exceeds max username length"), ("no-such-rcmd-module", rb"No such rcmd module"),
-               ("failed-to-register-rcmd", rb"Failed to register rcmd"), ("host-spec-form", rb"not of form"),
-               ("no-remote-hosts", rb"no remote hosts specified"), ("connect-timeout-negative", rb"connect timeout must be"),
-               ("command-timeout-negative", rb"command timeout must be"), ("fanout-not-positive", rb"fanout must be"),
-               ("exec-with-t", rb"Cannot specify -t"), ("usage", rb"Usage: "), ("invalid-option", rb"invalid option"),
-               ("pcp-needs-operands", rb"requires source and dest"), ("target-is-directory", rb"target is directory can only"),
-               ("pcp-server-rules", rb"with pcp server|pcp server and pcp client"), ("pcp-client-rules", rb"pcp client")]
-OPTIONAL_DIAGNOSTICS = {"invalid-option"}      # getopt's own message (opterr), glibc wording
+# ---- refusals are classified by WHAT IS WRONG WITH THE INPUT (a syntactic feature of the generated case), never by the
+# wording of the message: a refusal is `exit != 0` (before anything is contacted: -q / the trace file of the real runs)
+# plus a diagnostic on stderr; whether the diagnostic names the offending option, variable, setting or value is recorded
+NUMRX = re.compile(r"^[ \t\n\v\f\r]*([+-]?[0-9]+)$")
+NUMERIC = (("f", "FANOUT", 1, ("fanout",)), ("t", "PDSH_CONNECT_TIMEOUT", 0, ("connect", "timeout")),
+           ("u", "PDSH_COMMAND_TIMEOUT", 0, ("command", "timeout")))
+REQUIRED_KINDS = (["%s:%s:%s" % (src, l, k) for src in ("cmdline", "env") for l in "ftu"
+                   for k in ("not-a-number", "out-of-range", "too-small")] +
+                  ["cmdline:l:over-long", "cmdline:R:unknown", "env:R:unknown", "wcoll:user:over-long", "wcoll:rcmd:unknown",
+                   "wcoll:malformed", "no-targets", "unknown-option", "missing-argument", "usage", "exec:connect-timeout",
+                   "pcp:operands"])
+
+
+def denotes(t):
+    m = NUMRX.match(t)
+    return int(m.group(1)) if m else None
+
+
+def bad_tags(c, real, optstr):
+    """[(kind, words a diagnostic could name)]: everything about the case that cannot work / is not a proper command line"""
+    tags = []
+    letters = [l for l, _ in c.opts]
+    # the last option of a `_drop_last` case lacks its argument: it gives no value at all
+    valued = c.opts[:-1] if getattr(c, "_drop_last", False) else c.opts
+    last = lambda l: ([v for x, v in valued if x == l] or [None])[-1]
+    for l, var, lo, nouns in NUMERIC:
+        for src, texts in (("cmdline", [v for x, v in valued if x == l]), ("env", [c.env[var]] if var in c.env else [])):
+            for i, t in enumerate(texts):
+                v = denotes(t)
+                names = ("-" + l, var if src == "env" else "-" + l, t) + nouns
+                if v is None:
+                    tags.append(("%s:%s:not-a-number" % (src, l), names))
+                elif not -2 ** 31 <= v < 2 ** 31:
+                    tags.append(("%s:%s:out-of-range" % (src, l), names))
+                elif v < lo and i == len(texts) - 1 and (src == "cmdline" or last(l) is None):
+                    tags.append(("%s:%s:too-small" % (src, l), names))
+    for x, v in valued:
+        if x == "l" and len(v) > real.lmax:
+            tags.append(("cmdline:l:over-long", ("-l", "user", v)))
+    avail = real.avail[c.pers]
+    rc_, re_ = last("R"), c.env.get("PDSH_RCMD_TYPE")
+    chosen = rc_ if rc_ is not None else re_
+    if chosen is not None and chosen not in avail:
+        tags.append(("%s:R:unknown" % ("cmdline" if rc_ is not None else "env"), ("-R", "PDSH_RCMD_TYPE", "rcmd", "module", chosen)))
+    ws = getattr(c, "wspec", None)
+    if ws:
+        if any(len(u) > real.lmax for u in ws["users"]):
+            tags.append(("wcoll:user:over-long", ("user", "-w")))
+        if any(t not in avail for t in ws["types"]):
+            tags.append(("wcoll:rcmd:unknown", ("rcmd", "module", "-w") + tuple(t for t in ws["types"] if t and t not in avail)))
+        if ws["malformed"]:
+            tags.append(("wcoll:malformed", ("host", "-w", "form")))
+    if "w" not in letters:
+        tags.append(("no-targets", ("host", "-w", "target")))
+    known = optstr["dsh" if c.pers == "dsh" else "pcp"]
+    if any(l not in known.replace(":", "") or l == ":" for l in letters):
+        tags.append(("unknown-option", ("option", "usage")))
+    if getattr(c, "_drop_last", False):
+        tags.append(("missing-argument", ("option", "argument", "usage")))
+    if "h" in letters:
+        tags.append(("usage", ("usage",)))
+    if any(l in "cI" for l in letters):
+        tags.append(("unhandled-option", ("usage",)))
+    ct = last("t") if last("t") is not None else c.env.get("PDSH_CONNECT_TIMEOUT")
+    if (chosen == "exec" or (chosen is None and getattr(real, "dflt_rcmd", {}).get(c.pers) == "exec")) and ct is not None \
+            and "exec" in avail and denotes(ct) is not None and denotes(ct) != real.dflt_ctmo:
+        tags.append(("exec:connect-timeout", ("-t", "exec", "timeout")))
+    if c.pers != "dsh":
+        if any(l in "zZy" for l in letters):
+            tags.append(("pcp:modes", ("pcp", "server", "client", "directory")))
+        elif len(c.operands) < 2:
+            tags.append(("pcp:operands", ("source", "dest", "file", "usage")))
+    return tags
+
+
+def names_offender(err_, names):
+    e = (err_ or b"").decode("latin1").lower()
+    return any(n and n.strip() and n.lower() in e for n in names)
 
 
 def generated_table():
-    """option letters (present in this build's option strings / absent, e.g. -s on AIX only) and variables of the
-    settings table that harness/consts/optable.c reads off opt.c"""
+    """the settings table that harness/consts/optable.c derives from the behaviour of the opt.c under test: option
+    strings, rows (letter | variable, opt_t member, behaviour class)"""
     src = open(os.path.join(VERIF, "lean", "PdshVerif", "Gen", "Optable.lean")).read()
-    strs = "".join(re.search(r'def OT_%s : String := "([^"]*)"' % n, src).group(1) for n in ("GEN_ARGS", "DSH_ARGS", "PCP_ARGS"))
+    st = {n: re.search(r'def OT_%s : String := "([^"]*)"' % n, src).group(1) for n in ("GEN_ARGS", "DSH_ARGS", "PCP_ARGS")}
+    strs = "".join(st.values())
     rows = lambda name: re.findall(r'\("([^"]*)", "([^"]*)", "([^"]*)"\)', re.search(r"def %s : .*" % name, src).group(0))
     letters = {r[0] for r in rows("OT_OPTS")} | {r[0] for r in rows("OT_EARLY")} | set(strs.replace(":", ""))
     return {"letters": {l for l in letters if l in strs}, "absent": {l for l in letters if l not in strs},
-            "env": [r[0] for r in rows("OT_ENVS")]}
+            "env": [r[0] for r in rows("OT_ENVS")], "opts": rows("OT_OPTS"), "early": rows("OT_EARLY"), "envs": rows("OT_ENVS"),
+            "optstr": {"dsh": st["GEN_ARGS"] + st["DSH_ARGS"], "pcp": st["GEN_ARGS"] + st["PCP_ARGS"]}}
+
+
+VALUED = ("string_to_int", "atoi", "strdup", "bounded_text")
+TABLE_VALUES = {"fanout": ("3", "5", "7"), "connect_timeout": ("4", "6", "8"), "command_timeout": ("9", "11", "13"),
+                "ruser": ("alice", "bob", "carol"), "remote_program_path": ("/c1/pdcp", "/c2/pdcp", "/env/pdcp")}
+
+
+def gen_table_cases(tab, real):
+    """deterministic, driven by the GENERATED table: for every valued setting (a letter that takes an argument and sets
+    an opt_t member, with the variable that sets the same member if there is one) and every personality that has the
+    letter: absent / command line only / variable only / both / twice on the command line (both orders) / twice plus
+    variable / valid command line over a hostile variable; for every flag letter: once, twice"""
+    out = []
+    var_of = {f: v for v, f, cv in tab["envs"] if cv in VALUED}
+    settings = [(l, f) for l, f, cv in tab["opts"] + tab["early"] if cv in VALUED and f != "misc_modules"]
+    for f, v in var_of.items():
+        if not any(f == f2 for _, f2 in settings) and f != "misc_modules":
+            settings.append((None, f))
+    for pers in ("dsh", "pdcp", "rpdcp"):
+        ostr = tab["optstr"]["dsh" if pers == "dsh" else "pcp"]
+        avail = real.avail[pers]
+        for l, f in settings:
+            var = var_of.get(f)
+            if f == "rcmd_name":
+                good = [a for a in ("exec", "rsh") if a in avail] or avail[:1]
+                if not good:
+                    continue
+                v1, v2, ve = good[0], good[-1], good[-1]
+                hostile = "nosuch"
+            else:
+                v1, v2, ve = TABLE_VALUES.get(f, ("7", "8", "9"))
+                hostile = "x" if f in ("fanout", "connect_timeout", "command_timeout") else "nosuch"
+            has = l is not None and l in ostr
+            pats = [([], {})]
+            if has:
+                pats += [([(l, v1)], {}), ([(l, v1), (l, v2)], {}), ([(l, v2), (l, v1)], {}), ([(l, v1), (l, v1)], {})]
+                if f == "rcmd_name":
+                    pats += [([(l, "nosuch"), (l, v2)], {}), ([(l, v1), (l, "nosuch")], {})]
+            if var:
+                pats += [([], {var: ve})]
+                if has:
+                    pats += [([(l, v1)], {var: ve}), ([(l, v1), (l, v2)], {var: ve}), ([(l, v1)], {var: hostile}),
+                             ([(l, hostile)], {var: ve})]
+            if f in ("fanout", "connect_timeout", "command_timeout"):
+                # a number that parses but cannot work: refused by the sanity checks at the END of option processing
+                # (opt_verify), which has a branch of its own for each personality
+                small = "0" if f == "fanout" else "-1"
+                if has:
+                    pats += [([(l, small)], {}), ([(l, v1), (l, small)], {}), ([(l, small), (l, v1)], {})]
+                    if var:
+                        pats += [([(l, v1)], {var: small})]
+                if var:
+                    pats += [([], {var: small})]
+                # ... whatever else is on the command line: next to every flag and every other valued option of this
+                # personality ("independent of which other options are present" holds for the refusals too)
+                if has:
+                    for fl in (FLAGS_DSH if pers == "dsh" else FLAGS_PCP):
+                        pats += [([(l, small), (fl, None)], {}), ([(fl, None), (l, small)], {})]
+                    for l2, f2 in settings:
+                        if l2 is not None and l2 != l and l2 in ostr and f2 != "rcmd_name":
+                            pats += [([(l, small), (l2, TABLE_VALUES.get(f2, ("7",))[0])], {})]
+            for opts, env in pats:
+                for front in (True, False):
+                    o = (opts + [("w", "foo"), ("q", None)]) if front else ([("w", "foo"), ("q", None)] + opts)
+                    c = Case(pers, o, dict(env), operands_for(pers, real.files))
+                    c.group = "table"
+                    out.append(c)
+                    if not opts:
+                        break
+        for l, f, cv in tab["opts"]:
+            if cv in VALUED or l not in ostr or ostr[ostr.index(l) + 1:ostr.index(l) + 2] == ":" or l in "wq":
+                continue
+            for n in (1, 2):
+                c = Case(pers, [("w", "foo"), ("q", None)] + [(l, None)] * n, {}, operands_for(pers, real.files),
+                         oracle=l in (FLAGS_DSH if pers == "dsh" else FLAGS_PCP))
+                c.group = "table"
+                out.append(c)
+    return out
 
 
 def rank_from_gen():
@@ -484,6 +658,100 @@ def detect_variant(real, moddir):
     return "".join("1" if b else "0" for b in (d4, d5, at, dopt, wuser, early))
 
 
+# --------------------------------------------------------------------------- the settings where they take effect
+USE_SCRIPTS = {
+    "rec.sh": "#!/bin/sh\n# rec.sh DIR USER HOST: the user this target is contacted with\nprintf '%s' \"$2\" > \"$1/user.$3\"\n",
+    "conc.sh": "#!/bin/sh\n# conc.sh DIR RANK LIFE_MS: how many commands run at the same time\nd=$1; n=$2; life=$3\n: > \"$d/run.$n\"\n"
+               "max=0; i=0\nwhile [ $i -lt $life ]; do\n  c=$(ls \"$d\" | grep -c '^run\\.')\n  [ \"$c\" -gt \"$max\" ] && max=$c\n"
+               "  sleep 0.05; i=$((i+50))\ndone\necho $max > \"$d/peak.$n\"\nrm -f \"$d/run.$n\"\n",
+    "tmo.sh": "#!/bin/sh\n# tmo.sh DIR RANK SECONDS: is a command of that length cut short\n: > \"$1/start.$2\"\nsleep $3\n: > \"$1/end.$2\"\n",
+}
+# the watchdog looks at the targets every WDOG_POLL = 2 s: a limit of 1 s is enforced after about 2 s, one of 9 s not before
+# 10 s; a command of 4.5 s leaves more than 2 s to either side
+TMO_SHORT, TMO_LONG, TMO_SLEEP = 1, 9, "4.5"
+
+
+def own_users(c):
+    """[(host, the user the target names itself | None)] of the -w words of a case (plain names, no brackets)"""
+    out = []
+    for l, v in c.opts:
+        if l != "w":
+            continue
+        for piece in v.split(","):
+            rest = piece.split(":", 1)[1] if ":" in piece else piece
+            us, host = rest.split("@", 1) if "@" in rest else (None, rest)
+            out.append((host, us))
+    return out
+
+
+def gen_use_cases(real, rng, quick):
+    """real runs through exec that show each setting WHERE IT TAKES EFFECT: the user every target is contacted with
+    (exec's %u) for every order of -l / -R / -w words with and without `type:` and `user@` prefixes; the number of
+    commands running at the same time for every source of the fanout; whether a command is cut short for every source
+    of the command time-out.  Returns (cases, permutation groups)."""
+    cases, groups = [], []
+    L, L2, R = ("l", "bar"), ("l", "baz"), ("R", "exec")
+    sets = [([L, ("w", "exec:h1")], {}), ([L, R, ("w", "h2")], {}), ([L, ("w", "exec:h1"), ("w", "exec:u2@h3")], {}),
+            ([L, R, ("w", "h2"), ("w", "u4@h4")], {}), ([R, ("w", "exec:h1"), ("w", "h2")], {}),
+            ([L, ("w", "h2")], {"PDSH_RCMD_TYPE": "exec"}), ([L, ("w", "exec:h1,exec:h5")], {}),
+            ([L, R, ("w", "exec:h1,h2,exec:u2@h3,u4@h4")], {}), ([L, ("w", "exec:h1"), ("f", "2"), ("N", None)], {}),
+            ([L, L2, ("w", "exec:h1")], {}), ([R, ("w", "exec:u9@h9,exec:h1"), L], {}),
+            # the transport a target names itself is the one that is used, wherever -R / PDSH_RCMD_TYPE say otherwise
+            ([("R", "rsh"), ("w", "exec:h1"), L], {}), ([("w", "exec:h1,exec:u2@h3")], {"PDSH_RCMD_TYPE": "rsh"})]
+    for opts, env in sets:
+        grp = []
+        for perm in itertools.permutations(opts):
+            c = Case("dsh", list(perm), dict(env), [], kind="use")
+            c.use, c.group = "user", "use"
+            grp.append(c)
+        if len({l for l, _ in opts if l in "lR"}) == len([l for l, _ in opts if l in "lR"]):
+            groups.append(grp)
+        cases += grp
+    # fanout in use: more targets than the fanout allows, commands that live long enough to overlap
+    for opts, env in (([("f", "2")], {}), ([], {"FANOUT": "3"}), ([("f", "2")], {"FANOUT": "3"}), ([("f", "3")], {"FANOUT": "2"}),
+                      ([("f", "3"), ("f", "2")], {}), ([("f", "2"), ("S", None)], {"FANOUT": "1"})):
+        for front in (True, False):
+            base = [R, ("w", "h[0-6]")]
+            c = Case("dsh", (opts + base) if front else (base + opts), dict(env), [], kind="use")
+            c.use, c.group = "fanout", "use"
+            cases.append(c)
+    # command time-out in use
+    for opts, env in (([("u", "1")], {}), ([], {"PDSH_COMMAND_TIMEOUT": "1"}), ([("u", "9")], {"PDSH_COMMAND_TIMEOUT": "1"}),
+                      ([("u", "1")], {"PDSH_COMMAND_TIMEOUT": "9"}), ([], {}), ([("u", "9"), ("u", "1")], {}), ([("u", "1"), ("u", "9")], {})):
+        for front in ((True, False) if opts else (True,)):
+            base = [R, ("w", "h[0-1]")]
+            c = Case("dsh", (opts + base) if front else (base + opts), dict(env), [], kind="use")
+            c.use, c.group = "timeout", "use"
+            cases.append(c)
+    return cases, groups
+
+
+def run_use_case(real, ctx, c, i, life=500):
+    d = os.path.join(ctx.scratch, "c18use_%d_%d" % (i, life))
+    os.makedirs(d, exist_ok=True)
+    sdir = os.path.join(ctx.scratch, "c18use_scripts")
+    if c.use == "user":
+        c.operands = [os.path.join(sdir, "rec.sh"), d, "%u", "%h"]
+    elif c.use == "fanout":
+        c.operands = [os.path.join(sdir, "conc.sh"), d, "%n", str(life)]
+    else:
+        c.operands = [os.path.join(sdir, "tmo.sh"), d, "%n", TMO_SLEEP]
+    rc, out, err_ = real.run("dsh", c.argv(), c.env, timeout=40)
+    obs = {}
+    if c.use == "user":
+        for f in os.listdir(d):
+            if f.startswith("user."):
+                obs[f[5:]] = open(os.path.join(d, f)).read()
+    elif c.use == "fanout":
+        peaks = [int(open(os.path.join(d, f)).read().strip() or 0) for f in os.listdir(d) if f.startswith("peak.")]
+        obs = {"peak": max(peaks) if peaks else 0, "finished": len(peaks)}
+    else:
+        obs = {"started": len([f for f in os.listdir(d) if f.startswith("start.")]),
+               "ended": len([f for f in os.listdir(d) if f.startswith("end.")])}
+    return rc, out, err_, obs
+
+
+
 # --------------------------------------------------------------------------- main
 def run(ctx):
     rng = ctx.rng
@@ -499,7 +767,14 @@ def run(ctx):
                    "operands; correspondence only); (E) module selection through -L with the conflicting test modules A/B; "
                    "(G) -w words [rcmd_type:][user@]hosts with loaded/unknown transports, short/over-long users, a malformed prefix; "
                    "(H) options registered by modules (-a, -g NAME of the test modules A/B/G) before and after -M; "
-                   "(F) real `-R exec` runs with a 5 s limit for accepted configuration classes; non-trivial = at least one "
+                   "(F) real `-R exec` runs for accepted configuration classes and refused ones (trace file: nothing contacted), "
+                   "runs without a command (prompt loop: stdin at end of file / one command line); "
+                   "(T) deterministic, driven by the table derived from the behaviour of opt.c: every valued setting x personality x "
+                   "{absent, command line, variable, both, twice (both orders), twice + variable, valid over hostile and back, too small "
+                   "on either side, too small next to every flag / every other valued option}, every flag once and twice; user names "
+                   "at LOGIN_NAME_MAX-2..+2 (-l and user@), structurally bad command lines one kind each; "
+                   "(W) remote command words (option-like, empty, blank-containing, `--`) vs the listing's Command / Infile(s) / Outfile; "
+                   "refusals are classified by the kind of bad INPUT (evidence refusal_kinds), never by message wording; non-trivial = at least one "
                    "setting given by option or variable; distinct = distinct (personality, environment, argv)"}
     dist = {"single": 0, "combo": 0, "orders": 0, "syntax": 0, "misc": 0, "runs": 0, "accepted": 0, "rejected": 0,
             "hang": 0, "info_exit": 0, "pers": {"dsh": 0, "pdcp": 0, "rpdcp": 0}, "classes": {}}
@@ -519,14 +794,53 @@ def run(ctx):
         for letter in "ftu":
             for src in "ceb":
                 for i, v in enumerate(NUMS if not quick else NUMS):
-                    pers = ["dsh", "pdcp", "rpdcp"][(i + ord(letter)) % 3] if not quick else ("dsh" if i % 4 else "pdcp")
+                    pers = ["dsh", "pdcp", "rpdcp"][(i + ord(letter)) % 3] if not quick else ["pdcp", "dsh", "rpdcp", "dsh"][i % 4]
                     c = gen_single(pers, letter, src, v, real.files)
                     c.group = "single"
                     cases.append(c)
-        for v in ["u" * n for n in (0, 1, 16, 17, 254, 255, 256, 257, 258, 300, 5000)]:
-            c = gen_single("dsh", "l", "c", v, real.files)
-            c.group = "single"
+        L = real.lmax
+        for pers in ("dsh", "pdcp"):
+            for v in ["u" * n for n in sorted({0, 1, 16, 17, L - 2, L - 1, L, L + 1, L + 2, L + 44, 5000, 70000})]:
+                c = gen_single(pers, "l", "c", v, real.files)
+                c.group = "single"
+                cases.append(c)
+        # values given per target, deterministically: user@ at the limit, unknown / empty / loaded transport, malformed
+        for pers in ("dsh", "pdcp"):
+            for ty, us, malformed in ([(None, "u" * n, False) for n in (L - 1, L, L + 1, L + 2)] +
+                                      [("nosuch", None, False), ("", None, False), ("rsh", None, False), ("rsh", "bob", False),
+                                       ("nosuch", "u" * (L + 1), False), (None, None, True)]):
+                w = "bob@rsh:foo" if malformed else ((ty + ":" if ty is not None else "") + (us + "@" if us is not None else "") + "foo")
+                c = Case(pers, [("w", w), ("q", None)], {}, operands_for(pers, real.files))
+                c.wspec = {"types": [ty] if ty is not None and not malformed else [],
+                           "users": [us] if us is not None and not malformed else [], "malformed": malformed}
+                c.group = "wcoll"
+                cases.append(c)
+        tab = generated_table()
+        for pers in real.avail:
+            real.dflt_rcmd[pers] = default_rcmd(real, pers, rank)
+        cases += gen_table_cases(tab, real)
+        # structurally bad command lines, one kind each
+        for pers in ("dsh", "pdcp"):
+            for opts, ops, drop in (([("q", None)], None, False), ([("w", "foo"), ("q", None), ("J", None)], None, False),
+                                    ([("w", "foo"), ("q", None), ("h", None)], None, False),
+                                    ([("w", "foo"), ("q", None), ("f", "")], [], True),
+                                    ([("w", "foo"), ("q", None), ("c", None)], None, False),
+                                    ([("w", "foo"), ("q", None), ("I", "x")], None, False)):
+                c = Case(pers, opts, {}, operands_for(pers, real.files) if ops is None else ops, oracle=False, struct_ok=False)
+                if drop:
+                    c._drop_last = True
+                c.group = "syntax"
+                cases.append(c)
+        for n in (0, 1):
+            c = Case("pdcp", [("w", "foo"), ("q", None)], {}, operands_for("pdcp", real.files)[:n], oracle=False, struct_ok=False)
+            c.group = "syntax"
             cases.append(c)
+        for t in ("5", "0", "11"):
+            for src in "ce":
+                c = Case("dsh", [("w", "foo"), ("q", None), ("R", "exec")] + ([("t", t)] if src == "c" else []),
+                         {"PDSH_CONNECT_TIMEOUT": t} if src == "e" else {}, ["true"])
+                c.group = "single"
+                cases.append(c)
         for v in RCMDS:
             for src in "ceb":
                 for pers in ("dsh", "pdcp"):
@@ -542,11 +856,18 @@ def run(ctx):
             cases.append(c)
         # (C) all orders of <= 4 options
         order_groups = []
-        for gi in range(25 if quick else 400):
+        pinned_orders = [("dsh", [("f", "3"), ("t", "4"), ("u", "9"), ("l", "alice")], {}),
+                         ("dsh", [("R", "rsh"), ("f", "5"), ("S", None), ("N", None)], {"FANOUT": "7", "PDSH_RCMD_TYPE": "exec"}),
+                         ("dsh", [("t", "4"), ("u", "9"), ("b", None)], {"PDSH_COMMAND_TIMEOUT": "13"}),
+                         ("pdcp", [("e", "/c1/pdcp"), ("f", "3"), ("r", None), ("p", None)], {"PDSH_REMOTE_PDCP_PATH": "/env/pdcp"}),
+                         ("rpdcp", [("e", "/c1/pdcp"), ("l", "bob"), ("u", "9")], {"FANOUT": "7"})]
+        for gi in range(len(pinned_orders) + (25 if quick else 400)):
             pers = rng.choice(["dsh", "dsh", "pdcp"])
             letters = rng.sample(["f", "t", "u", "l", "R", "N", "b"] + (["e"] if pers != "dsh" else ["S"]), rng.choice([2, 3, 4]))
             opts = [(l, gen_value(rng, l, 1.0) if l in "ftulRe" else None) for l in letters]
             env = {ENVNAME[l]: gen_value(rng, l, 1.0) for l in "ftuR" if rng.random() < 0.4}
+            if gi < len(pinned_orders):
+                pers, opts, env = pinned_orders[gi]
             grp = []
             for perm in itertools.permutations(opts):
                 c = Case(pers, [("w", "foo"), ("q", None)] + list(perm), env, operands_for(pers, real.files))
@@ -567,6 +888,25 @@ def run(ctx):
             c = gen_modes(rng, real.files)
             c.group = "modes"
             cases.append(c)
+        # the remote command: the words after the options, joined by blanks (correspondence; the property about the command
+        # as such is C09's): several words, words that look like options, empty words, blanks inside words, `--`
+        WORDS = ["ls", "-l", "-f", "3", "", " ", "a b", "--", "-", "echo", "%h", "x;y", "'q'", "-w", "foo", "-S", "none2", "\t"]
+        cmdsets = [["ls", "-l"], ["echo", "-f", "3"], ["a", "", "b"], [""], ["", ""], ["a b", "c"], ["--", "x"], ["-"], ["-", "x"],
+                   ["echo", "--", "-q"], [" "], ["x", " ", "y"], ["uname"], ["a"] * 40]
+        for i in range(len(cmdsets) + (40 if quick else 1500)):
+            ops = cmdsets[i] if i < len(cmdsets) else [rng.choice(WORDS) for _ in range(rng.choice([1, 2, 2, 3, 5]))]
+            opts = [("w", "foo"), ("q", None)] + ([("f", "3")] if i % 3 == 0 else []) + ([("S", None)] if i % 4 == 0 else [])
+            dd = i % 2 == 0
+            if not dd and ops and ops[0].startswith("-") and ops[0] != "-":
+                dd = True           # the first word after the options must not look like one (else it IS one)
+            c = Case("dsh", opts, {}, ops, dashdash=dd, oracle=False)
+            c.group = "cmdwords"
+            cases.append(c)
+        for n in range(0, 5):       # PCP: source files and destination
+            c = Case("pdcp", [("w", "foo"), ("q", None)], {}, [real.files["src"]] * max(0, n - 1) + ([real.files["dst"]] if n else []),
+                     oracle=False)
+            c.group = "cmdwords"
+            cases.append(c)
         for c in load_corpus(real.files):
             cases.append(c)
         if rp_case is not None:         # --replay: only the recorded case
@@ -582,7 +922,7 @@ def run(ctx):
         # oracle domain: every setting option at most once, nothing structurally odd
         for c in cases:
             letters = [l for l, _ in c.opts if l in "ftulRMe"]
-            if len(letters) != len(set(letters)):
+            if len(letters) != len(set(letters)) and c.group != "table":
                 c.oracle = False
         argvs = []
         for c in cases:
@@ -644,6 +984,8 @@ def run(ctx):
                 got = "ok %s %s %s %s %s" % (mm[1], mm[2], mm[3], mm[4], mm[5] if mm[5] != "~" else hx("none"))
                 if d is not None and (mm[7] != hx(d["path"]) or "q=1" not in mm):
                     got += " path/q differ: model %s" % m
+                if d is not None and assembly_differs(c.pers, d, mm):
+                    got += " " + assembly_differs(c.pers, d, mm)
                 if "z=1" in mm and "q=1" in mm and d is None and rc == 0:
                     got = want      # pdcp server mode: opt_list prints the PCP section only (no generic settings to compare)
             else:
@@ -654,6 +996,12 @@ def run(ctx):
                 cov["samples"].append({"pers": c.pers, "env": c.env, "argv": a, "exit": rc, "dump": d, "spec": sp})
             # oracle
             if c.oracle and o is not None:
+                if sp != "ok" and c.group == "table" and len({l for l, _ in c.opts}) < len(c.opts):
+                    # a setting given twice: the text says "the value given on the command line" -- the first or the last
+                    # occurrence may be meant (the code takes the last; the model says so): judged against both
+                    c.pick_first = True
+                    sp = ctx.model("opt", spec_line(real, c, o, rank) + "\n", args=["spec"])[0]
+                    c.pick_first = False
                 if sp != "ok":
                     for clause in sp.split(" "):
                         if clause == "rejected-valid" and ("d", None) in c.opts:
@@ -681,6 +1029,16 @@ def run(ctx):
         # (E) module selection (uid 1000, PDSH_MODULE_DIR = the conflicting test modules A and B)
         if moddir:
             mcases = []
+            # deterministic: module selection absent / command line only / variable only / both / twice (both orders)
+            for mo, me in (([], None), (["A"], None), (["B"], None), ([], "B"), ([], "A"), (["A"], "B"), (["B"], "A"),
+                           (["A", "B"], None), (["B", "A"], None), (["A", "B"], "A"), (["B", "A"], "B"), (["nosuch,B"], "A"),
+                           ([], "nosuch,B"), (["B,A"], None), (["A,B"], "B")):
+                for front in (True, False):
+                    o = [("M", m) for m in mo]
+                    o = (o + [("w", "foo"), ("N", None)]) if front else ([("N", None), ("w", "foo")] + o)
+                    c = Case("dsh", o, {"PDSH_MISC_MODULES": me} if me is not None else {}, ["true"])
+                    c.oracle = len(mo) <= 1
+                    mcases.append(c)
             for _ in range(60 if quick else 1200):
                 opts = [("w", "foo")]
                 for _i in range(rng.choice([0, 1, 1, 1, 2])):
@@ -776,17 +1134,33 @@ def run(ctx):
                 rcases.append(Case("dsh", opts, {"FANOUT": t} if src == "e" else {}, ["/bin/true"], kind="run"))
         for extra in ([("u", "-1")], [("u", "7")], [("l", "u" * 300)], [("t", "5")], [("l", "someone")], [("u", "-4294967295")]):
             rcases.append(Case("dsh", [("R", "exec"), ("w", "h[0-2]")] + extra, {}, ["/bin/true"], kind="run"))
+        # no command: the prompt loop reads commands from stdin (at once end of file: nothing is contacted, exit 0; one
+        # command line: it is run on the targets)
+        for how in ("eof", "cmd", "cmd"):
+            c = Case("dsh", [("R", "exec"), ("w", "h[0-2]")] + ([("f", "2")] if how == "cmd" else []), {}, [], kind="run")
+            c.interactive = how
+            rcases.append(c)
         if rp_case is not None:
             rcases = [rp_case] if rp_kind == "run" else []
         # the remote command leaves a trace, so that "refused before anything is contacted" is observable
         touch = "/usr/bin/touch" if os.path.exists("/usr/bin/touch") else "/bin/touch"
         for i, c in enumerate(rcases):
             c.trace = os.path.join(ctx.scratch, "c18contacted_%d" % i)
-            c.operands = [touch, c.trace]
+            c.operands = [touch, c.trace] if not getattr(c, "interactive", None) else []
         rargv = [c.argv() for c in rcases]
-        with concurrent.futures.ThreadPoolExecutor(max_workers=8) as ex:
-            rres = list(ex.map(lambda ca: real.run("dsh", ca[1], ca[0].env, timeout=5), zip(rcases, rargv)))
         rmod = ctx.model("opt", "".join(model_line(real, c, a) + "\n" for c, a in zip(rcases, rargv)), args=["model", bits])
+
+        def one_run(cam):
+            c, a, m = cam
+            # generous limit (and one more try) where the model says the run ends; 5 s where it predicts a hang
+            limit = 5 if (m.startswith("ok ") and "term=0" in m.split(" ")) else 25
+            data = None
+            if getattr(c, "interactive", None) == "cmd":
+                data = ("%s %s\n" % (touch, c.trace)).encode()
+            return real.run("dsh", a, c.env, timeout=limit, stdin_data=data)
+
+        with concurrent.futures.ThreadPoolExecutor(max_workers=8) as ex:
+            rres = list(ex.map(one_run, zip(rcases, rargv, rmod)))
         robs = []
         for c, (rc, out, err_) in zip(rcases, rres):
             robs.append("hang" if rc is None else ("rej:%d" % (1 if err_.strip() else 0) if rc != 0 else None))
@@ -806,6 +1180,16 @@ def run(ctx):
             if got != want:
                 ctx.disagreement("opt model vs pdsh -R exec run", "impl `%s` model `%s`" % (want, m), case)
             contacted = os.path.exists(c.trace)
+            how = getattr(c, "interactive", None)
+            if how:
+                dist["interactive"] = dist.get("interactive", 0) + 1
+                nxt = [w for w in m.split(" ") if w.startswith("next=")]
+                if nxt != ["next=interactive"]:
+                    ctx.disagreement("opt model: no command", "model does not predict the prompt loop: `%s`" % m, case)
+                if rc == 0 and contacted != (how == "cmd"):
+                    ctx.disagreement("pdsh without a command", "stdin %s: targets %scontacted" %
+                                     ("gives one command line" if how == "cmd" else "is at end of file", "" if contacted else "not "), case)
+                continue
             if rc is not None and rc != 0 and contacted:
                 ctx.offender("refused-but-contacted", "pdsh refused the configuration (exit %d) but had already run the "
                              "remote command: env %s argv %s" % (rc, c.env, a), case)
@@ -815,35 +1199,117 @@ def run(ctx):
                 for clause in sp.split(" "):
                     ctx.offender(clause, "real run: clause `%s` violated: env %s argv %s -> %s" % (clause, c.env, a, want),
                                  dict(case, clause=clause))
+        # (U) the settings where they take effect
+        os.makedirs(os.path.join(ctx.scratch, "c18use_scripts"), exist_ok=True)
+        for name, text in USE_SCRIPTS.items():
+            sp_ = os.path.join(ctx.scratch, "c18use_scripts", name)
+            open(sp_, "w").write(text)
+            os.chmod(sp_, 0o755)
+        ucases, ugroups = gen_use_cases(real, rng, quick)
+        if rp_case is not None:
+            ucases, ugroups = ([rp_case] if rp_kind == "use" else []), []
+        # (the commands of this group mostly sleep: a wider pool keeps the group at about the length of its longest case)
+        with concurrent.futures.ThreadPoolExecutor(max_workers=24) as ex:
+            ures = list(ex.map(lambda ic: run_use_case(real, ctx, ic[1], ic[0]), enumerate(ucases)))
+        umod = ctx.model("opt", "".join(model_line(real, c, c.argv()) + "\n" for c in ucases), args=["model", bits])
+        for i, (c, m) in enumerate(zip(ucases, umod)):
+            rc, out, err_, obs = ures[i]
+            if c.use == "fanout" and rc == 0 and m.startswith("ok ") and obs.get("peak") != int(m.split(" ")[1]):
+                # fewer (or more) overlapping commands than the fanout in force: once more with longer-lived commands before
+                # it is reported (a loaded machine starts the commands further apart)
+                ures[i] = run_use_case(real, ctx, c, i, life=2000)
+        uspec_in = []
+        for c, (rc, out, err_, obs) in zip(ucases, ures):
+            base = spec_line(real, c, None, rank)
+            if c.use == "user":
+                for host, own in own_users(c):
+                    uspec_in.append((c, host, base + (" uown=" + hx(own) if own is not None else "") + " uobs=" + hx(obs.get(host, "\x00not-contacted"))))
+            elif c.use == "fanout":
+                uspec_in.append((c, None, base + " peak=%d" % obs["peak"]))
+            else:
+                uspec_in.append((c, None, base + " cut=%d short=%d long=%d" % (1 if obs["ended"] < obs["started"] or not obs["started"] else 0,
+                                                                               TMO_SHORT, TMO_LONG)))
+        uspec = ctx.model("opt", "".join(l + "\n" for _, _, l in uspec_in), args=["spec"])
+        seen_case = set()
+        for (c, host, line), sp in zip(uspec_in, uspec):
+            i = ucases.index(c)
+            rc, out, err_, obs = ures[i]
+            a = c.argv()
+            case = case_record(ctx, c, a, rc, err_, "use", use=c.use, observed=obs)
+            if id(c) not in seen_case:
+                seen_case.add(id(c))
+                cov["evaluations"] += 1
+                dist["use_" + c.use] = dist.get("use_" + c.use, 0) + 1
+                distinct.add(("use", tuple(sorted(c.env.items())), tuple(a)))
+                want = "hang" if rc is None else "exit %d" % rc
+                got = ("exit 0" if "term=1" in umod[i].split(" ") else "hang") if umod[i].startswith("ok ") else umod[i]
+                if got != want:
+                    ctx.disagreement("opt model vs pdsh -R exec run (settings in use)", "impl `%s` model `%s`" % (want, umod[i]), case)
+                if rc is not None and rc < 0:
+                    ctx.offender("crash", "pdsh killed by signal %d" % -rc, case)
+                if c.use == "user" and rc == 0 and umod[i].startswith("ok "):
+                    # the model's `contacts` (composition with the registry model of C09): host -> user
+                    mu = [w[6:] for w in umod[i].split(" ") if w.startswith("users=")]
+                    mmap = {unhex(x.split(":")[0]): unhex(x.split(":")[1]) for x in mu[0].split(",") if ":" in x} if mu else None
+                    if mmap != obs:
+                        ctx.disagreement("opt model (contacts) vs pdsh -R exec run", "targets contacted as %s, model %s" % (obs, mmap), case)
+            if rc != 0:
+                continue
+            if sp != "ok":
+                for clause in sp.split(" "):
+                    what = {"user": "target %s was contacted as user %r" % (host, obs.get(host, "<not contacted>")),
+                            "fanout": "%s commands ran at the same time" % obs.get("peak"),
+                            "timeout": "%s of %s commands of %s s ran to their end" % (obs.get("ended"), obs.get("started"), TMO_SLEEP)}[c.use]
+                    ctx.offender(clause, "setting not in force where it takes effect: clause `%s`: env %s argv %s: %s"
+                                 % (clause, c.env, a[:-4] + ["..."], what), dict(case, clause=clause, host=host))
+        # every order of the same options: every target is contacted as the same user
+        upos = {id(c): i for i, c in enumerate(ucases)}
+        for grp in ugroups:
+            outs = {}
+            for c in grp:
+                rc, out, err_, obs = ures[upos[id(c)]]
+                outs.setdefault((rc, tuple(sorted(obs.items()))), c)
+            if len(outs) > 1:
+                (k1, c1), (k2, c2) = list(outs.items())[:2]
+                ctx.offender("order-dependent:in-use", "the same options in another order contact the targets as other users: %s -> %s, "
+                             "%s -> %s" % (c1.argv()[:-4], dict(k1[1]), c2.argv()[:-4], dict(k2[1])),
+                             case_record(ctx, c2, c2.argv(), k2[0], b"", "use", use="user", observed=dict(k2[1])))
         cov["distinct_nontrivial"] = len(distinct)
         # ---- what the run hit: every option letter / variable of the table GENERATED from opt.c, the diagnostics ----
         if rp_case is None:
-            groups = [(cases, res), (rcases, rres)]
+            groups = [(cases, res), (rcases, rres), (ucases, [(r[0], r[1], r[2]) for r in ures])]
             if moddir:
                 groups += [(mcases, mres), (qcases, qres)]
             hit = {"dsh": set(), "pdcp": set(), "rpdcp": set()}
-            envhit, diag = set(), {}
+            envhit, kinds = set(), {}
             for cs_, rs_ in groups:
                 for c, (rc, out, err_) in zip(cs_, rs_):
                     hit[c.pers].update(l for l, _ in c.opts)
                     envhit.update(c.env)
-                    for kind, pat in DIAGNOSTICS:
-                        if re.search(pat, err_ or b""):
-                            diag[kind] = diag.get(kind, 0) + 1
-            tab = generated_table()
+                    tags = bad_tags(c, real, tab["optstr"])
+                    for kind, names in tags:
+                        k = kinds.setdefault(kind, {"cases": 0, "alone": 0, "refused_with_diagnostic": 0, "names_offender": 0})
+                        k["cases"] += 1
+                        if len(tags) == 1:
+                            k["alone"] += 1
+                            if rc is not None and rc > 0 and (err_ or b"").strip():
+                                k["refused_with_diagnostic"] += 1
+                                k["names_offender"] += 1 if names_offender(err_, names) else 0
             allhit = set().union(*hit.values())
             dist["options_hit"] = {k: "".join(sorted(v)) for k, v in hit.items()}
             dist["env_hit"] = sorted(envhit)
-            dist["diagnostics_hit"] = diag
+            dist["refusal_kinds"] = kinds
             dist["table_letters"] = "".join(sorted(tab["letters"]))
-            dist["table_letters_not_in_this_build"] = "".join(sorted(tab["absent"]))
             dist["table_env"] = sorted(tab["env"])
             missing = sorted(tab["letters"] - allhit)
             missing_env = sorted(set(tab["env"]) - envhit)
-            missing_diag = [k for k, _ in DIAGNOSTICS if k not in diag and k not in OPTIONAL_DIAGNOSTICS]
-            if missing or missing_env or missing_diag:
-                ctx.broken.append(("C-BROKEN", "generator coverage", "not hit in this run: option letters %s, variables %s, "
-                                   "diagnostics %s (table generated from opt.c)" % (missing, missing_env, missing_diag)))
+            # a kind counts as covered when a case whose ONLY defect is of that kind was generated (what the code under
+            # test then did with it is the oracle's business, not the generator's)
+            missing_kinds = [k for k in REQUIRED_KINDS if kinds.get(k, {}).get("alone", 0) == 0]
+            if missing or missing_env or missing_kinds:
+                ctx.broken.append(("C-BROKEN", "generator coverage", "not generated in this run: option letters %s, variables %s, "
+                                   "kinds of bad value %s (table derived from the behaviour of opt.c)"
+                                   % (missing, missing_env, missing_kinds)))
     cov["distribution"] = dist
     cov["traces_validated_against_impl"] = cov["evaluations"]
     return ctx.finish(
@@ -853,10 +1319,11 @@ def run(ctx):
                      "argument and variable texts are 7-bit ASCII without NUL",
                      "glibc getopt with POSIXLY_CORRECT, strtoul, strtol, atoi as modelled in Opt/Settings.lean, Base/CInt.lean",
                      "pdcp/rpdcp operands name existing files (a regular source file, a destination directory)",
-                     "-z/-Z (pdcp server/client modes), -T, -x, -w expressions other than a plain host list are outside the model"],
+                     "-T, -x, -w expressions other than a plain host list, `-w -` are outside the model; -z/-Z/-y: correspondence only"],
         trusted_base=["Lean 4.33 kernel", "axioms: propext, Classical.choice, Quot.sound at most (audited per theorem)",
                       "hand-written model Opt/Settings.lean tied to opt.c/main.c by differential execution of the built binaries",
-                      "Gen/Dsh.lean, Gen/Opt.lean regenerated from /repo (defaults, rcmd ranking); getopt strings compared textually",
+                      "Gen/Dsh.lean, Gen/Opt.lean, Gen/Optable.lean regenerated from /repo (defaults, rcmd ranking; option strings and the "
+                      "option / variable table by a behavioural probe: harness/consts/optable.c)",
                       "checks/c18.py (generator, dump parser), setpriv, gcc/make"],
         checker_cmd="lake build PdshVerif.Props.C18 && #print axioms on every theorem of Props/C18.lean")
 
